@@ -132,6 +132,10 @@ def make_cases_factory(state):
                 if form[0] == 'attr' and form[2] == '*':
                     continue
                 sel = render(form)
+                if xml and root is not None and root.namespace != gen.XHTML and rng.random() < 0.4:
+                    # HTML-only pseudo-classes never match in plain XML, so these decorations change nothing
+                    sel += rng.choice([':not(:checked)', ':not(:link)', ':not(:disabled, :required)', ':is(*|*, :enabled)', ':not(:read-write)',
+                                       ':not(:default):not(:indeterminate)'])
                 state['checks'] += 1
                 try:
                     got = [id(e) for e in sv.select(sel, soup, namespaces=nsmap)]
